@@ -28,6 +28,45 @@ Lemma rw_method_call_ident x m a :
   ECall (EField (EIdent x) m) None (ATuple (EIdent x :: args_exprs a)).
 Proof. reflexivity. Qed.
 
+(** the general shape: receiver [p], duplicated as [np] ([method_receiver p = Some np]).  The
+    receiver evaluates without effect to [o]; [np] evaluates to [o] without effect before and
+    after the lookup of the method. *)
+Definition stable_receiver (rho : env) (va : list value) (p np : expr) (m : name) (s : store) : Prop :=
+  forall k o s0, eval1 d k rho va p s = Ok o s0 ->
+    s0 = s /\
+    (forall j, (4 <= j)%nat -> eval1 d j rho va np s = Ok o s) /\
+    (forall k2 f s1, index d k2 o (VStr m) s = Ok f s1 ->
+       forall j, (4 <= j)%nat -> eval1 d j rho va np s1 = Ok o s1 /\ eval d j rho va np s1 = Ok [o] s1).
+
+Lemma method_call_gen n rho va p np m a s r s' :
+  stable_receiver rho va p np m s ->
+  eval d n rho va (ECall p (Some m) a) s = Ok r s' ->
+  forall k, (n + 7 <= k)%nat ->
+  eval d k rho va (ECall (EField np m) None (ATuple (np :: args_exprs a))) s = Ok r s'.
+Proof.
+  intros Hst H k L.
+  destruct n as [|n]; [discriminate|]. rewrite eval_S_call in H.
+  apply bind_ok in H as (o & s0 & Ho & H). apply bind_ok in H as (f & s1 & Hidx & H).
+  apply bind_ok in H as (args & s2 & Hargs & Hcall).
+  destruct (Hst _ _ _ Ho) as (-> & Hnp & Hafter).
+  pose proof (Hafter _ _ _ Hidx) as Hnp1.
+  destruct k as [|[|[|k]]]; try lia.
+  rewrite eval_S_call.
+  eapply bind_ok_intro.
+  { rewrite eval1_S. eapply bind_ok_intro; [|reflexivity].
+    rewrite eval_S_field. eapply bind_ok_intro; [apply Hnp; lia|].
+    eapply bind_ok_intro; [eapply index_up; [exact Hidx|lia]|reflexivity]. }
+  cbn [first]. eapply bind_ok_intro.
+  { rewrite eval_args_S_tuple.
+    pose proof (eval_args_exprs _ _ _ _ _ _ _ Hargs) as Hl.
+    destruct (args_exprs a) as [|e rest].
+    - specialize (Hl (S k) ltac:(lia)). rewrite eval_list_S_nil in Hl. apply ret_ok in Hl as [-> ->].
+      rewrite eval_list_S_one. apply Hnp1. lia.
+    - rewrite eval_list_S_cons. eapply bind_ok_intro; [apply Hnp1; lia|].
+      eapply bind_ok_intro; [apply Hl; lia|reflexivity]. }
+  eapply call_up; [exact Hcall|lia].
+Qed.
+
 (** [x:m(args)] -> [x.m(x, args)].  Hypotheses: reading [x] runs no code (a local, or a global of
     a globals table without metatable), and the lookup of [m] (which may run an [__index]
     metamethod) leaves the binding of [x] as it is. *)
@@ -35,29 +74,62 @@ Theorem method_call_sound n rho va x m a s r s' :
   pure_ident rho x s ->
   (forall o k f s1, reads rho x s o -> index d k o (VStr m) s = Ok f s1 -> reads rho x s1 o) ->
   eval d n rho va (ECall (EIdent x) (Some m) a) s = Ok r s' ->
-  forall k, (n + 6 <= k)%nat ->
+  forall k, (n + 7 <= k)%nat ->
   eval d k rho va (rw_method_call (ECall (EIdent x) (Some m) a)) s = Ok r s'.
 Proof.
   intros Hp Hstable H k L. rewrite rw_method_call_ident.
-  destruct n as [|n]; [discriminate|]. rewrite eval_S_call in H. inv_ok H.
-  apply (eval1_reads d _ _ _ _ _ _ _ Hp) in H0 as [-> Hr].
-  rename a0 into o, a1 into f, a2 into args, H into Hidx, H1 into Hargs, H3 into Hcall.
-  pose proof (Hstable _ _ _ _ Hr Hidx) as Hr1.
-  destruct k as [|[|[|k]]]; try lia.
-  rewrite eval_S_call.
-  eapply bind_ok_intro.
-  { rewrite eval1_S. eapply bind_ok_intro; [|reflexivity].
-    rewrite eval_S_field. eapply bind_ok_intro; [apply (reads_eval1 d _ _ _ _ _ _ Hr); lia|].
-    eapply bind_ok_intro; [eapply index_up; [exact Hidx|lia]|reflexivity]. }
-  cbn [first]. eapply bind_ok_intro.
-  { rewrite eval_args_S_tuple.
-    pose proof (eval_args_exprs _ _ _ _ _ _ _ Hargs) as Hl.
-    destruct (args_exprs a) as [|e rest].
-    - specialize (Hl (S k) ltac:(lia)). rewrite eval_list_S_nil in Hl. inv_ok Hl. subst.
-      rewrite eval_list_S_one. apply (reads_eval d _ _ _ _ _ _ Hr1). lia.
-    - rewrite eval_list_S_cons. eapply bind_ok_intro; [apply (reads_eval1 d _ _ _ _ _ _ Hr1); lia|].
-      eapply bind_ok_intro; [apply Hl; lia|reflexivity]. }
-  eapply call_up; [exact Hcall|lia].
+  eapply method_call_gen; [|exact H|exact L].
+  intros k0 o s0 Ho. apply (eval1_reads d _ _ _ _ _ _ _ Hp) in Ho as [-> Hr].
+  split; [reflexivity|]. split.
+  - intros j Lj. apply (reads_eval1 d _ _ _ _ _ _ Hr). lia.
+  - intros k2 f s1 Hidx j Lj. pose proof (Hstable _ _ _ _ Hr Hidx) as Hr1. split.
+    + apply (reads_eval1 d _ _ _ _ _ _ Hr1). lia.
+    + apply (reads_eval d _ _ _ _ _ _ Hr1). lia.
+Qed.
+
+(** a literal receiver: [("s"):m(args)] -> [("s").m(("s"), args)] - no hypothesis at all *)
+Definition is_literal (e : expr) : bool :=
+  match e with ENil | ETrue | EFalse | EString _ | ENumber _ => true | _ => false end.
+
+Lemma literal_eval e : is_literal e = true ->
+  exists v, forall rho va s j, (1 <= j)%nat -> eval d j rho va e s = Ok [v] s.
+Proof.
+  destruct e; try discriminate; intros _; eexists; intros rho0 va0 st j L; (destruct j as [|j]; [lia|]); reflexivity.
+Qed.
+
+Lemma literal_eval_inv e v : is_literal e = true ->
+  (forall rho va s j, (1 <= j)%nat -> eval d j rho va e s = Ok [v] s) ->
+  forall rho va s j vs s', eval d j rho va e s = Ok vs s' -> vs = [v] /\ s' = s.
+Proof.
+  intros Hl Hv rho va s j vs s' H. destruct j as [|j]; [discriminate|].
+  rewrite (Hv rho va s (S j) ltac:(lia)) in H. inversion H; auto.
+Qed.
+
+Theorem method_call_literal_sound n rho va lit m a s r s' :
+  is_literal lit = true ->
+  eval d n rho va (ECall (EParen lit) (Some m) a) s = Ok r s' ->
+  forall k, (n + 7 <= k)%nat ->
+  eval d k rho va (rw_method_call (ECall (EParen lit) (Some m) a)) s = Ok r s'.
+Proof.
+  intros Hl H k L.
+  assert (Erw : rw_method_call (ECall (EParen lit) (Some m) a) =
+                ECall (EField (EParen lit) m) None (ATuple (EParen lit :: args_exprs a)))
+    by (destruct lit; try discriminate Hl; reflexivity).
+  rewrite Erw. destruct (literal_eval lit Hl) as (v & Hv).
+  assert (Hparen : forall s0 j, (3 <= j)%nat -> eval d j rho va (EParen lit) s0 = Ok [v] s0).
+  { intros s0 j Lj. destruct j as [|[|j]]; try lia. rewrite eval_S_paren.
+    eapply bind_ok_intro; [|reflexivity]. rewrite eval1_S.
+    eapply bind_ok_intro; [apply Hv; lia|reflexivity]. }
+  assert (Hparen1 : forall s0 j, (4 <= j)%nat -> eval1 d j rho va (EParen lit) s0 = Ok v s0).
+  { intros s0 j Lj. destruct j as [|j]; [lia|]. rewrite eval1_S.
+    eapply bind_ok_intro; [apply Hparen; lia|reflexivity]. }
+  eapply method_call_gen; [|exact H|exact L].
+  intros k0 o s0 Ho.
+  assert (o = v /\ s0 = s) as [-> ->].
+  { pose proof (eval1_up d _ (k0 + 4) _ _ _ _ _ _ Ho ltac:(lia)) as Ho'.
+    rewrite (Hparen1 s (k0 + 4)%nat ltac:(lia)) in Ho'. inversion Ho'; auto. }
+  split; [reflexivity|]. split; [intros j Lj; apply Hparen1; exact Lj|].
+  intros k2 f s1 _ j Lj. split; [apply Hparen1; exact Lj|apply Hparen; lia].
 Qed.
 
 (** a sufficient condition for the second hypothesis: the lookup does not touch the store *)
@@ -65,7 +137,7 @@ Corollary method_call_sound_quiet_lookup n rho va x m a s r s' :
   pure_ident rho x s ->
   (forall o k f s1, reads rho x s o -> index d k o (VStr m) s = Ok f s1 -> s1 = s) ->
   eval d n rho va (ECall (EIdent x) (Some m) a) s = Ok r s' ->
-  forall k, (n + 6 <= k)%nat ->
+  forall k, (n + 7 <= k)%nat ->
   eval d k rho va (rw_method_call (ECall (EIdent x) (Some m) a)) s = Ok r s'.
 Proof.
   intros Hp Hq. apply method_call_sound; [exact Hp|].
@@ -87,7 +159,7 @@ Definition ex_call : expr := ECall (EIdent (of_string "x")) (Some (of_string "le
 Example method_call_example :
   pure_ident ex_rho (of_string "x") ex_store /\
   eval L51 8 ex_rho [] ex_call ex_store = Ok [VNum (of_Z 3)] ex_store /\
-  eval L51 14 ex_rho [] (rw_method_call ex_call) ex_store = Ok [VNum (of_Z 3)] ex_store.
+  eval L51 15 ex_rho [] (rw_method_call ex_call) ex_store = Ok [VNum (of_Z 3)] ex_store.
 Proof.
   split; [left; discriminate|]. split; vm_compute; reflexivity.
 Qed.
